@@ -85,10 +85,18 @@ func R20() *data.ContentHash {
 	return &data.ContentHash{Raw: &data.ContentHash_Raw{Hash: bytes.Repeat([]byte{0x20}, 20), DigestAlgorithm: 1, FileExtension: "bin"}}
 }
 
+// R1cs has the digest of R1 and the file extension "cs", a prefix of R1's "csv": the two IRIs are in a
+// prefix relation.
+func R1cs() *data.ContentHash {
+	h := RawHash(1)
+	h.Raw.FileExtension = "cs"
+	return h
+}
+
 // DataUniverse are the content hashes of the data scenario plus two that no event ever names.
 func DataUniverse() []*data.ContentHash {
 	return []*data.ContentHash{RawHash(1), RawHash(2), RawHash(3), {Graph: GraphHash(1)}, {Graph: GraphHash(2)}, {Graph: GraphHash(3)},
-		{Graph: G1m()}, R20(), RawHash(4), {Graph: GraphHash(4)}}
+		{Graph: G1m()}, R20(), R1cs(), RawHash(4), {Graph: GraphHash(4)}}
 }
 
 // DataSpec is the C16 scenario: one seed per injected hasher.
@@ -138,6 +146,12 @@ func DataSpec(thorough bool) Spec {
 		fix(Msg("Anchor(C,G1m)", &data.MsgAnchor{Sender: C.String(), ContentHash: &data.ContentHash{Graph: G1m()}})),
 		// a 20-byte digest under digest algorithm 1 (message validation admits 20..64 bytes for every algorithm)
 		fix(Msg("Anchor(B,R20)", &data.MsgAnchor{Sender: B.String(), ContentHash: R20()})),
+		// an IRI that is a proper prefix of R1's (extension cs / csv), anchored and registered after or before it
+		fix(Msg("Anchor(C,R1cs)", &data.MsgAnchor{Sender: C.String(), ContentHash: R1cs()})),
+		fix(Msg("RegisterResolver(B,#1,R1cs)", &data.MsgRegisterResolver{Signer: B.String(), ResolverId: 1, ContentHashes: []*data.ContentHash{R1cs()}})),
+		// a content hash with BOTH parts set is no content hash (message validation must refuse it)
+		fix(Msg("RegisterResolver(B,#1,raw+graph)", &data.MsgRegisterResolver{Signer: B.String(), ResolverId: 1, ContentHashes: []*data.ContentHash{{Raw: RawHash(2).Raw, Graph: GraphHash(2)}}})),
+		fix(Msg("Anchor(B,raw+graph)", &data.MsgAnchor{Sender: B.String(), ContentHash: &data.ContentHash{Raw: RawHash(2).Raw, Graph: GraphHash(2)}})),
 		fix(Next(time.Second)), fix(Next(24*time.Hour)),
 	)
 	exp := map[string]bool{}
